@@ -37,7 +37,7 @@ type machine struct {
 	seq                                                  int
 	made                                                 map[string]*types.Tx // every tx ever built, by hash
 	reorgs                                               int
-	gapFills, removedInRun, stateChanges, evictedWithGap int
+	gapFills, removedInRun, stateChanges, evictedWithGap, failedReorgs int
 }
 
 func (m *machine) stateNonce(u int) uint64 {
@@ -51,7 +51,12 @@ func (m *machine) stateNonce(u int) uint64 {
 func (m *machine) mkTx(u int, nonce uint64, variant int, cid []byte) *types.Tx {
 	s := &vnode.TxSpec{Kind: "transfer", From: u, Nonce: nonce, Type: types.TxType_TRANSFER, Recipient: vnode.KeyN((u + 1) % m.nusers).Addr,
 		Amount: big.NewInt(int64(1 + variant))}
-	if variant%2 == 1 {
+	if variant >= 10 {
+		// an enterprise configuration call (private networks): admission reads the enterprise contract and the
+		// height of the next block
+		s.Type, s.Recipient, s.Amount = types.TxType_GOVERNANCE, []byte(types.AergoEnterprise), new(big.Int)
+		s.Payload = vnode.CallInfo("appendAdmin", vnode.KeyN((u+variant)%m.nusers).Enc())
+	} else if variant%2 == 1 {
 		// a much larger transaction (payload), so that a size-limited fetch meets transactions that do not fit
 		// in front of ones that would
 		s.Type, s.Payload = types.TxType_NORMAL, bytes.Repeat([]byte{byte('a' + variant)}, 1200)
@@ -263,7 +268,7 @@ func TestC13Pool(t *testing.T) {
 		steps := rapid.IntRange(3, 25).Draw(t, "steps")
 		for s := 0; s < steps; s++ {
 			best := N.Best()
-			action := rapid.SampledFrom([]string{"put", "put", "put", "put", "put", "remove", "block-from-pool", "block-outside", "reorg", "reput", "evict"}).Draw(t, "action")
+			action := rapid.SampledFrom([]string{"put", "put", "put", "put", "put", "remove", "block-from-pool", "block-outside", "reorg", "failed-reorg", "reput", "evict"}).Draw(t, "action")
 			switch action {
 			case "put":
 				u := rapid.IntRange(0, nusers-1).Draw(t, "user")
@@ -408,7 +413,7 @@ func TestC13Pool(t *testing.T) {
 					m.stateChanges++
 				}
 				m.hist = append(m.hist, fmt.Sprintf("%s(%d txs)", action, len(p.Included)))
-			case "reorg":
+			case "reorg", "failed-reorg":
 				if best.BlockNo() < 1 {
 					continue
 				}
@@ -441,6 +446,24 @@ func TestC13Pool(t *testing.T) {
 					prev = p.Block
 				}
 				N.SwitchTo()
+				if action == "failed-reorg" {
+					// the last block of the longer branch is invalid: the roll-forward executes the blocks before it
+					// (the pool is told about each), fails, and the node stays on its main chain
+					side[len(side)-1] = vnode.WithStateRootFlipped(side[len(side)-1])
+					for i, b := range side {
+						err := N.AddPeer(b)
+						if i < len(side)-1 && err != nil {
+							t.Fatalf("side block refused: %v", err)
+						}
+					}
+					if !bytes.Equal(N.Best().BlockHash(), best.BlockHash()) {
+						t.Fatalf("harness: the best block changed although the longer branch is invalid")
+					}
+					m.relay()
+					m.failedReorgs++
+					m.hist = append(m.hist, fmt.Sprintf("failed-reorg(depth %d)", depth))
+					break
+				}
 				for _, b := range side {
 					if err := N.AddPeer(b); err != nil {
 						t.Fatalf("side block refused: %v", err)
@@ -468,6 +491,9 @@ func TestC13Pool(t *testing.T) {
 		}
 		if m.evictedWithGap > 0 {
 			classes = append(classes, "eviction-of-account-with-gap")
+		}
+		if m.failedReorgs > 0 {
+			classes = append(classes, "failed-reorg")
 		}
 		if m.stateChanges > 0 {
 			classes = append(classes, "state-change")
@@ -518,7 +544,7 @@ func TestC13Concurrent(t *testing.T) {
 				switch k := rapid.SampledFrom([]string{"put", "put", "put", "get", "exist", "size", "remove"}).Draw(t, "job"); k {
 				case "put":
 					u := rapid.IntRange(0, nusers-1).Draw(t, "user")
-					tx := m.mkTx(u, uint64(rapid.IntRange(1, 8).Draw(t, "nonce")), rapid.IntRange(0, 1).Draw(t, "variant"), cid)
+					tx := m.mkTx(u, uint64(rapid.IntRange(1, 8).Draw(t, "nonce")), rapid.SampledFrom([]int{0, 1, 0, 1, 10, 11}).Draw(t, "variant"), cid)
 					all = append(all, tx)
 					plans[w] = append(plans[w], job{kind: k, tx: tx})
 				case "remove", "exist":
